@@ -2,6 +2,7 @@ import Postcard.Model.Json
 import Postcard.Model.Schema
 import Postcard.Model.Ser
 import Postcard.Model.De
+import Postcard.Model.SchemaSer
 /-
   Postcard.Model.Dyn — mirrors source/postcard-dyn/src/ser.rs
   (`to_stdvec_dyn`, `ser_named_type`, private module `varint`) and
@@ -9,9 +10,13 @@ import Postcard.Model.De
   module `varint`, `TakeExt`), arm by arm in source order.
 
   Target: 64-bit (`usize` = `u64`, `cfg(target_pointer_width = "64")`).
-  Every `todo!()` is an explicit `.error .panic`.  Slice indexing in the Rust
-  (`tys[0]` guarded by `tys.len() == 1`, `out[i]` with `i < varint_max`) is
-  in range by construction and is modelled by pattern matching.
+  State of the source: AFTER the repairs 56ed075 (de: Char), 54e78af (ser:
+  Char must be one scalar), 1fcf780 (Schema kind), c903408 (tuples of every
+  arity are arrays), a75b85b (I128 up to u64::MAX), b886a1b (F32 overflow).
+  No `todo!()` is left; `.error .panic` remains in `DynErr` so that "never
+  panics" is an ordinary theorem (the only place it could come from is the fuel
+  of `decOwned`, shown unreachable in Props/C18).  Slice indexing in the Rust
+  (`out[i]` with `i < varint_max`) is in range by construction.
   Core Lean only; executable (the driver links it).
 -/
 namespace Postcard
@@ -130,11 +135,14 @@ def serByteElems : List Json → DR (List Byte)
       | .error e => .error e
       | .ok bs => .ok (UInt8.ofNat n :: bs)
 
-/-- the `String | Char` arm. -/
-def serStr (j : Json) : DR (List Byte) :=
+/-- the `String | Char` arm; `isChar` = `*ty == OwnedDataModelType::Char`:
+`if isChar && val.chars().count() != 1 {return Err(SchemaMismatch)}`. -/
+def serStr (isChar : Bool) (j : Json) : DR (List Byte) :=
   match j.asStr with
   | none => .error .schemaMismatch
-  | some s => .ok (dynVarint 64 s.length ++ s)
+  | some s =>
+    if isChar && !oneScalar s then .error .schemaMismatch
+    else .ok (dynVarint 64 s.length ++ s)
 
 /-- `for b in val { ser_named_type(ty, b, out)?; }` -/
 def serAll (f : Json → DR (List Byte)) : List Json → DR (List Byte)
@@ -196,10 +204,13 @@ def dynSer (fo : FloatOps) : Schema → Json → DR (List Byte)
     match asI64R j with
     | .error e => .error e
     | .ok x => .ok (dynVarint 64 (dynZigzag 64 x))
-  | .i128, j =>                                              -- arm I128: as_i64, `i128::from`
-    match asI64R j with
-    | .error e => .error e
-    | .ok x => .ok (dynVarint 128 (dynZigzag 128 x))
+  | .i128, j =>                                              -- arm I128: as_i64, else as_u64; `i128::from`
+    match j.asI64 with
+    | some x => .ok (dynVarint 128 (dynZigzag 128 x))
+    | none =>
+      match asU64R j with
+      | .error e => .error e
+      | .ok n => .ok (dynVarint 128 (dynZigzag 128 (n : Int)))
   | .u16, j =>                                               -- arm U16
     match getU 16 j with
     | .error e => .error e
@@ -224,16 +235,18 @@ def dynSer (fo : FloatOps) : Schema → Json → DR (List Byte)
     match asI64R j with
     | .error e => .error e
     | .ok x => .ok (dynVarint 64 (dynZigzag 64 x))
-  | .f32, j =>                                               -- arm F32: `val as f32`
+  | .f32, j =>                                               -- arm F32: `val as f32`, refused if it overflows
     match j.asF64 fo with
     | none => .error .schemaMismatch
-    | some b => .ok (leBytes 4 (fo.f64ToF32 b))
+    | some b =>
+      if fo.isFinite64 b && !fo.isFinite32 (fo.f64ToF32 b) then .error .schemaMismatch
+      else .ok (leBytes 4 (fo.f64ToF32 b))
   | .f64, j =>                                               -- arm F64
     match j.asF64 fo with
     | none => .error .schemaMismatch
     | some b => .ok (leBytes 8 b)
-  | .string, j => serStr j                                   -- arm String | Char
-  | .char, j => serStr j
+  | .string, j => serStr false j                             -- arm String | Char
+  | .char, j => serStr true j
   | .byteArray, j =>                                         -- arm ByteArray
     match j.asArray with
     | none => .error .schemaMismatch
@@ -257,12 +270,10 @@ def dynSer (fo : FloatOps) : Schema → Json → DR (List Byte)
       match serAll (dynSer fo t) xs with
       | .error e => .error e
       | .ok bs => .ok (dynVarint 64 xs.length ++ bs)
-  | .tuple [t], j => dynSer fo t j                           -- arm Tuple | Struct{Tuple}: `if tys.len() == 1`
-  | .tuple ts, j =>
+  | .tuple ts, j =>                                          -- arm Tuple | Struct{Tuple}: every arity is an array
     match j.asArray with
     | none => .error .schemaMismatch
     | some xs => if xs.length ≠ ts.length then .error .schemaMismatch else dynSerZip fo ts xs
-  | .struct _ (.tuple [t]), j => dynSer fo t j
   | .struct _ (.tuple ts), j =>
     match j.asArray with
     | none => .error .schemaMismatch
@@ -290,7 +301,10 @@ def dynSer (fo : FloatOps) : Schema → Json → DR (List Byte)
       | some [(k, v)] => dynSerVariant fo vs 0 k v           -- `o.len() == 1`; `o.iter().next()`
       | some _ => .error .schemaMismatch                     -- `o.len() != 1`
       | none => .error .schemaMismatch
-  | .schema, _ => .error .panic                              -- arm Schema: `todo!()`
+  | .schema, j =>                                            -- arm Schema: `serde_json::from_value`, `postcard::to_stdvec`
+    match schemaOfJson j with
+    | none => .error .schemaMismatch
+    | some s => .ok (enc (serOwned s))
 /-- `for (ty, val) in tys.iter().zip(val.iter()) { ser_named_type(ty, val, out)?; }` -/
 def dynSerZip (fo : FloatOps) : List Schema → List Json → DR (List Byte)
   | [], _ => .ok []
@@ -324,10 +338,6 @@ def dynSerVariant (fo : FloatOps) : List SVariant → Nat → List Byte → Json
       match data with
       | .unit => .ok (dynVarint 64 idx)
       | .newtype t =>
-        match dynSer fo t v with
-        | .error e => .error e
-        | .ok bs => .ok (dynVarint 64 idx ++ bs)
-      | .tuple [t] =>                                        -- `if tys.len() == 1`
         match dynSer fo t v with
         | .error e => .error e
         | .ok bs => .ok (dynVarint 64 idx ++ bs)
@@ -421,12 +431,13 @@ def dynDe (fo : FloatOps) : Schema → List Byte → DR (Json × List Byte)
     match dynTakeVarint 64 bs with
     | .error e => .error e
     | .ok (n, rest) => .ok (Json.ofI64 (dynUnzigzag n), rest)
-  | .i128, bs =>                                             -- arm I128: `i64::try_from(val)` else ShouldSupportButDont
-    match dynTakeVarint 128 bs with
+  | .i128, bs =>                                             -- arm I128: `i64::try_from(val)`, else `u64::try_from(val)`,
+    match dynTakeVarint 128 bs with                          --   else ShouldSupportButDont
     | .error e => .error e
     | .ok (n, rest) =>
       let x := dynUnzigzag n
       if -(2 ^ 63 : Int) ≤ x ∧ x < (2 ^ 63 : Int) then .ok (Json.ofI64 x, rest)
+      else if 0 ≤ x ∧ x < (2 ^ 64 : Int) then .ok (.posInt x.toNat, rest)
       else .error .shouldSupportButDont
   | .u16, bs =>                                              -- arm U16
     match dynTakeVarint 16 bs with
@@ -466,7 +477,16 @@ def dynDe (fo : FloatOps) : Schema → List Byte → DR (Json × List Byte)
       match Json.numFromF64 fo (ofLeBytes b) with
       | none => .error .schemaMismatch
       | some j => .ok (j, rest)
-  | .char, _ => .error .panic                                -- arm Char: `todo!()`
+  | .char, bs =>                                             -- arm Char: a string holding exactly one scalar
+    match dynTakeVarint 64 bs with
+    | .error e => .error e
+    | .ok (len, rest) =>
+      match dynTakeN len rest with
+      | .error e => .error e
+      | .ok (s, rest') =>
+        if utf8Valid s then
+          if oneScalar s then .ok (.str s, rest') else .error .schemaMismatch
+        else .error .schemaMismatch
   | .string, bs =>                                           -- arm String
     match dynTakeVarint 64 bs with
     | .error e => .error e
@@ -498,14 +518,10 @@ def dynDe (fo : FloatOps) : Schema → List Byte → DR (Json × List Byte)
       match deN (dynDe fo t) n rest with
       | .error e => .error e
       | .ok (vs, rest') => .ok (.arr vs, rest')
-  | .tuple [], bs => .ok (.null, bs)                         -- arm Tuple | Struct{Tuple}: `[] =>`
-  | .tuple [t], bs => dynDe fo t bs                          --   `[ty] =>`
-  | .tuple ts, bs =>                                         --   `multi =>`
+  | .tuple ts, bs =>                                         -- arm Tuple | Struct{Tuple}: every arity is an array
     match dynDeList fo ts bs with
     | .error e => .error e
     | .ok (vs, rest) => .ok (.arr vs, rest)
-  | .struct _ (.tuple []), bs => .ok (.null, bs)
-  | .struct _ (.tuple [t]), bs => dynDe fo t bs
   | .struct _ (.tuple ts), bs =>
     match dynDeList fo ts bs with
     | .error e => .error e
@@ -528,8 +544,12 @@ def dynDe (fo : FloatOps) : Schema → List Byte → DR (Json × List Byte)
     match dynTakeVarint 64 bs with
     | .error e => .error e
     | .ok (variant, rest) => dynDeVariant fo vs variant rest
-  | .schema, _ => .error .panic                              -- arm Schema: `todo!()`
-/-- `for ty in multi.iter() { let (val, irest) = deserialize(ty, rest)?; rest = irest; vec.push(val); }` -/
+  | .schema, bs =>                                           -- arm Schema: `postcard::take_from_bytes`, `serde_json::to_value`
+    match decOwnedBytes bs with
+    | .error .panic => .error .panic                         -- (fuel of the model; unreachable, Props/C18)
+    | .error _ => .error .schemaMismatch
+    | .ok (s, rest) => .ok (jsonOfSchema s, rest)
+/-- `for ty in tys.iter() { let (val, irest) = deserialize(ty, rest)?; rest = irest; vec.push(val); }` -/
 def dynDeList (fo : FloatOps) : List Schema → List Byte → DR (List Json × List Byte)
   | [], bs => .ok ([], bs)
   | t :: ts, bs =>
@@ -556,11 +576,6 @@ def dynDeVariant (fo : FloatOps) : List SVariant → Nat → List Byte → DR (J
     match data with
     | .unit => .ok (.str name, bs)
     | .newtype t =>
-      match dynDe fo t bs with
-      | .error e => .error e
-      | .ok (v, r) => .ok (.obj [(name, v)], r)
-    | .tuple [] => .ok (.obj [(name, .null)], bs)
-    | .tuple [t] =>
       match dynDe fo t bs with
       | .error e => .error e
       | .ok (v, r) => .ok (.obj [(name, v)], r)
@@ -628,8 +643,14 @@ def allocLeaf {α : Type} (r : DR α) : Nat :=
 
 mutual
 def allocDyn (fo : FloatOps) : Schema → List Byte → Nat
-  | .char, _ => 0                                            -- todo!()
-  | .schema, _ => 0                                          -- todo!()
+  | .char, bs =>                                             -- `s.to_string()`: len bytes + the Value
+    match dynDe fo .char bs with
+    | .ok (.str s, _) => 1 + s.length
+    | _ => 0
+  | .schema, bs =>                                           -- the `Value` tree built by `to_value` (the
+    match dynDe fo .schema bs with                           --  intermediate OwnedDataModelType has one Box
+    | .ok (j, _) => j.cost                                   --  per node, each node ≥ 1 input byte)
+    | .error _ => 0
   | .string, bs =>                                           -- `s.to_string()`: len bytes + the Value
     match dynDe fo .string bs with
     | .ok (.str s, _) => 1 + s.length
@@ -648,11 +669,7 @@ def allocDyn (fo : FloatOps) : Schema → List Byte → Nat
     | .error _ => 0
     | .ok (n, rest) =>
       allocN (allocDyn fo t) (dynDe fo t) n rest + allocLeaf (dynDe fo (.seq t) bs)
-  | .tuple [], _ => 1
-  | .tuple [t], bs => allocDyn fo t bs
   | .tuple ts, bs => allocList fo ts bs + allocLeaf (dynDeList fo ts bs)
-  | .struct _ (.tuple []), _ => 1
-  | .struct _ (.tuple [t]), bs => allocDyn fo t bs
   | .struct _ (.tuple ts), bs => allocList fo ts bs + allocLeaf (dynDeList fo ts bs)
   | .map key val, bs =>
     match key with
@@ -686,8 +703,6 @@ def allocVariant (fo : FloatOps) : List SVariant → Nat → List Byte → Nat
     match data with
     | .unit => 1 + name.length
     | .newtype t => allocDyn fo t bs + (match dynDe fo t bs with | .error _ => 0 | .ok _ => name.length + 2)
-    | .tuple [] => name.length + 3
-    | .tuple [t] => allocDyn fo t bs + (match dynDe fo t bs with | .error _ => 0 | .ok _ => name.length + 2)
     | .tuple ts => allocList fo ts bs + (match dynDeList fo ts bs with | .error _ => 0 | .ok _ => name.length + 3)
     | .struct fs => allocFields fo fs bs + (match dynDeFields fo fs [] bs with | .error _ => 0 | .ok _ => name.length + 3)
   | _ :: rest, k+1, bs => allocVariant fo rest k bs
